@@ -33,6 +33,8 @@ GEN = VERIF / "lean" / "Nstd" / "Generated"
 OUT = GEN / "Sha256Tables.lean"
 OUT_U2 = GEN / "Sha256U2.lean"
 OUT_BODY = GEN / "Sha256Body.lean"
+OUT_PROOFS = GEN / "Sha256BodyProofs.lean"
+LAST_STATUS = {}
 UNROLL2 = "_SHA256_UNROLL2"
 
 
@@ -1341,37 +1343,88 @@ class BodyGen:
         return head + "".join(self.defs) + main
 
 
-def body_functions(raw, params_check=True):
-    """Lean text of WriteByteBlock, update, finalize translated from the directives-only view of the sources"""
-    out = []
+FALLBACK = {"WriteByteBlock": (f"(p : {SHA}) : {SHA}", "Nstd.Sha.writeByteBlock p"),
+            "update": (f"(p : {SHA}) (data : List UInt8) : {SHA}", "Nstd.Sha.update p data"),
+            "finalize": (f"(p : {SHA}) : List UInt8 × {SHA}", "Nstd.Sha.finalize p")}
+PROOFS = VERIF / "lean" / "Nstd" / "Sha" / "body_proofs"
+FALLBACK_PROOF = {"WriteByteBlock": "theorem WriteByteBlock_eq (p : Sha) : Sha256Body.WriteByteBlock p = writeByteBlock p := rfl\n",
+                  "update": "theorem gen_update_eq (p : Sha) (data : List UInt8) : Sha256Body.update p data = update p data := rfl\n",
+                  "finalize": "theorem gen_finalize_eq (p : Sha) : Sha256Body.finalize p = finalize p := rfl\n"}
+
+
+def body_functions(raw):
+    """(Lean text of WriteByteBlock, update, finalize translated from the directives-only view of the sources,
+    {function: None | reason why its body was NOT translated}).  A body outside the translated C subset is not an
+    error: that function falls back to the hand-written model function (its tie to the sources is then the
+    correspondence run alone, as for `hash`/`hmac`/`reset`), and the fallback is reported in the evidence."""
+    out, status = [], {}
     # class layout the model's `Sha` mirrors
     m = re.search(r"private:\s*uint32\s+state\s*\[\s*8\s*\]\s*;\s*uint64\s+count\s*;\s*byte\s+buffer\s*\[\s*64\s*\]\s*;", raw)
     if not m:
         raise Untranslatable("class Sha256: data members are not `uint32 state[8]; uint64 count; byte buffer[64];`")
     squeeze = lambda t: re.sub(r"\s+", " ", t).strip()
-    params, body = function_text(raw, r"static\s+void\s+WriteByteBlock\s*\(([^)]*)\)\s*\{", "Sha256::Private::WriteByteBlock")
-    mp = re.match(r"\s*Sha256\s*\*\s*(\w+)\s*$", params)
-    if not mp:
-        raise Untranslatable(f"WriteByteBlock: parameter list `{params}`")
-    g = BodyGen("WriteByteBlock", parse_function(body), mp.group(1))
-    out.append(g.run(f"/-- `Sha256::Private::WriteByteBlock({squeeze(params)})`: `{squeeze(body)}` -/\n", "{st}.p", f"(p : {SHA}) : {SHA}"))
-    params, body = function_text(raw, r"void\s+Sha256::update\s*\(([^)]*)\)\s*\{", "Sha256::update")
-    mp = re.match(r"\s*const\s+Byte\s*\*\s*(\w+)\s*,\s*usize\s+(\w+)\s*$", params)
-    if not mp:
-        raise Untranslatable(f"update: parameter list `{params}`")
-    g = BodyGen("update", parse_function(body), None, in_stream=(mp.group(1), mp.group(2)))
-    out.append(g.run(f"/-- `Sha256::update({squeeze(params)})`: `{squeeze(body)}`; the byte range is the list `{mp.group(1)}` -/\n", "{st}.p",
-                     f"(p : {SHA}) ({mp.group(1)} : List UInt8) : {SHA}"))
-    params, body = function_text(raw, r"void\s+Sha256::finalize\s*\(([^{]*)\)\s*\{", "Sha256::finalize")
-    mp = re.match(r"\s*byte\s*\(\s*&\s*(\w+)\s*\)\s*\[\s*digestSize\s*\]\s*$", params)
-    if not mp:
-        raise Untranslatable(f"finalize: parameter list `{params}`")
-    g = BodyGen("finalize", parse_function(body), None, out_ref=mp.group(1))
-    if g.out_ptr is None:
-        raise Untranslatable("finalize: no output pointer initialised from the digest parameter")
-    out.append(g.run(f"/-- `Sha256::finalize({squeeze(params)})`: `{squeeze(body)}`; result: the bytes written through the output pointer, and the object -/\n",
-                     "({st}.out, {st}.p)", f"(p : {SHA}) : List UInt8 × {SHA}"))
-    return "".join(out)
+
+    def one(name, fn):
+        try:
+            out.append(fn())
+            status[name] = None
+        except Untranslatable as ex:
+            sig, rhs = FALLBACK[name]
+            status[name] = str(ex)
+            out.append(f"/-- NOT TRANSLATED this run ({str(ex).replace('-/', '- /')}): falls back to the hand-written model function -/\n"
+                       f"def {name} {sig} := {rhs}\n\n")
+
+    def wbb():
+        params, body = function_text(raw, r"static\s+void\s+WriteByteBlock\s*\(([^)]*)\)\s*\{", "Sha256::Private::WriteByteBlock")
+        mp = re.match(r"\s*Sha256\s*\*\s*(\w+)\s*$", params)
+        if not mp:
+            raise Untranslatable(f"WriteByteBlock: parameter list `{params}`")
+        g = BodyGen("WriteByteBlock", parse_function(body), mp.group(1))
+        return g.run(f"/-- `Sha256::Private::WriteByteBlock({squeeze(params)})`: `{squeeze(body)}` -/\n", "{st}.p", f"(p : {SHA}) : {SHA}")
+
+    def upd():
+        params, body = function_text(raw, r"void\s+Sha256::update\s*\(([^)]*)\)\s*\{", "Sha256::update")
+        mp = re.match(r"\s*const\s+Byte\s*\*\s*(\w+)\s*,\s*usize\s+(\w+)\s*$", params)
+        if not mp:
+            raise Untranslatable(f"update: parameter list `{params}`")
+        g = BodyGen("update", parse_function(body), None, in_stream=(mp.group(1), mp.group(2)))
+        return g.run(f"/-- `Sha256::update({squeeze(params)})`: `{squeeze(body)}`; the byte range is the list `{mp.group(1)}` -/\n", "{st}.p",
+                     f"(p : {SHA}) ({mp.group(1)} : List UInt8) : {SHA}")
+
+    def fin():
+        params, body = function_text(raw, r"void\s+Sha256::finalize\s*\(([^{]*)\)\s*\{", "Sha256::finalize")
+        mp = re.match(r"\s*byte\s*\(\s*&\s*(\w+)\s*\)\s*\[\s*digestSize\s*\]\s*$", params)
+        if not mp:
+            raise Untranslatable(f"finalize: parameter list `{params}`")
+        g = BodyGen("finalize", parse_function(body), None, out_ref=mp.group(1))
+        if g.out_ptr is None:
+            raise Untranslatable("finalize: no output pointer initialised from the digest parameter")
+        return g.run(f"/-- `Sha256::finalize({squeeze(params)})`: `{squeeze(body)}`; result: the bytes written through the output pointer, and the object -/\n",
+                     "({st}.out, {st}.p)", f"(p : {SHA}) : List UInt8 × {SHA}")
+
+    one("WriteByteBlock", wbb)
+    one("update", upd)
+    one("finalize", fin)
+    return "".join(out), status
+
+
+def body_proofs(ns, status):
+    """the proof file for the translated bodies: per function the proof template of lean/Nstd/Sha/body_proofs (Lean checks
+    it against what was generated), or `rfl` for a function that fell back to the model function"""
+    t = ("-- GENERATED by tools/gen_sha.py: proofs that the translated bodies (Sha256Body.lean) are the model functions;\n"
+         "-- assembled from lean/Nstd/Sha/body_proofs/*.lean.in.  Do not edit.\n"
+         f"import Nstd.Generated.{ns}Body\nimport Nstd.Sha.LemmasBodyAux\n"
+         "namespace Nstd.Sha\nopen Nstd.Generated Nstd.Generated.Sha256\nset_option linter.unusedSimpArgs false\n\n"
+         "theorem transform_call_eq (state data : List UInt32) : Sha256.Transform_call state data = transform state data := rfl\n\n")
+    for name in ("WriteByteBlock", "update", "finalize"):
+        if status[name] is None:
+            t += (PROOFS / f"{name}.lean.in").read_text() + "\n"
+        else:
+            t += f"/-- `{name}` was not translated this run: {status[name].replace('-/', '- /')} -/\n" + FALLBACK_PROOF[name] + "\n"
+    t += ("/-- which bodies were translated this run (`true`) and which fell back to the model function -/\n"
+          "def translatedBodies : List (String × Bool) := [" +
+          ", ".join(f'("{n}", {"true" if status[n] is None else "false"})' for n in ("WriteByteBlock", "update", "finalize")) + "]\n\n")
+    return t + "end Nstd.Sha\n"
 
 
 # ---- extraction ----------------------------------------------------------------------------------
@@ -1516,9 +1569,10 @@ def generate(repo, defines=(), ns="Sha256", suffix="", want_body=False):
         body = ("-- GENERATED by tools/gen_sha.py from src/Crypto/Sha256.cpp (g++ -E -dD -fdirectives-only): the bodies of\n"
                 "-- Sha256::Private::WriteByteBlock, Sha256::update, Sha256::finalize.  Do not edit.\n"
                 "import Nstd.Sha.Model\nset_option linter.unusedVariables false\n"
-                f"namespace Nstd.Generated.{ns}Body\nopen Nstd.Generated.{ns} (Transform_call)\n\n" + body_functions(raw) +
-                f"end Nstd.Generated.{ns}Body\n")
-        return "".join(out), body
+                f"namespace Nstd.Generated.{ns}Body\nopen Nstd.Generated.{ns} (Transform_call)\n\n")
+        btext, status = body_functions(raw)
+        body += btext + f"end Nstd.Generated.{ns}Body\n"
+        return "".join(out), body, body_proofs(ns, status), status
     return "".join(out)
 
 
@@ -1534,20 +1588,27 @@ def run(repo=None):
         import common
         repo = common.REPO
     try:
-        text, body = generate(repo, want_body=True)
+        text, body, proofs, status = generate(repo, want_body=True)
         text2 = generate(repo, defines=(UNROLL2,), ns="Sha256U2", suffix="_u2")
     except Untranslatable as ex:
         return False, f"gen_sha: {ex}"
     write_if_changed(OUT, text)
     write_if_changed(OUT_U2, text2)
     write_if_changed(OUT_BODY, body)
-    return True, hashlib.sha1((text + text2 + body).encode()).hexdigest()[:12]
+    write_if_changed(OUT_PROOFS, proofs)
+    global LAST_STATUS
+    LAST_STATUS = status
+    fb = "; ".join(f"{n} NOT translated ({r})" for n, r in status.items() if r is not None)
+    return True, hashlib.sha1((text + text2 + body + proofs).encode()).hexdigest()[:12] + ("  [" + fb + "]" if fb else "")
 
 
 def gen(ctx):
     ok, msg = run()
     if ok:
-        ctx.notes.append(f"translator: Nstd/Generated/Sha256Tables.lean and Sha256U2.lean regenerated from the current sources (sha1 {msg})")
+        ctx.notes.append(f"translator: Nstd/Generated/Sha256Tables.lean, Sha256U2.lean, Sha256Body.lean, Sha256BodyProofs.lean regenerated from the current sources (sha1 {msg})")
+        ctx.cov["translated_bodies"] = {"Transform": "translated (it is the model)", "Transform -D_SHA256_UNROLL2": "translated",
+                                        **{n: ("translated, proved equal to the model" if r is None else f"NOT translated this run, model function used instead: {r}")
+                                           for n, r in LAST_STATUS.items()}}
     return ok, msg
 
 
